@@ -442,11 +442,12 @@ def gen_history(rng, gs, max_len):
     L = rng.randrange(1, max_len + 1)
     reqs = []
     first_tree = rng.choice(TREES)
+    fixed = rng.choice([x for x in COMBOS if x[0] == first_tree]) if rng.random() < 0.5 else None
     for i in range(L):
         # mostly stay on one tree type so that the cache is exercised; sometimes interleave
-        tree = first_tree if rng.random() < 0.75 else rng.choice(TREES)
+        tree = first_tree if (fixed or rng.random() < 0.75) else rng.choice(TREES)
         cands = [x for x in COMBOS if x[0] == tree]
-        _, system, mcode = rng.choice(cands)
+        _, system, mcode = fixed if fixed else rng.choice(cands)
         reqs.append({"tree": tree, "kind": rng.choice(KINDS), "system": system, "mcode": mcode,
                      "metric": rng.choice(METRIC_NAMES[mcode][:2]), "reconstruct": rng.random() < 0.2})
     z = rng.uniform(-0.95, 0.95)
@@ -727,16 +728,9 @@ def run_history_case(ck, c, gd, model_trace=None, stats=None):
             continue
         observed.append(matches)
         if want in matches:
-            # the handed-back tree must accept every admissible k of the requested kind (k = n)
-            nk = gd.n[r["kind"]]
-            try:
-                res = t.query(doc_query(r["system"], r["mcode"], c["probe"][0], c["probe"][1]), k=nk, return_distance=False)
-                if np.asarray(res).size != nk:
-                    ck.fail("knn_shape", dict(slim(c), failing_request=i), {"site": "get_%s_tree/k=n" % r["tree"]},
-                            detail="k=n=%d returned %s entries" % (nk, np.asarray(res).size))
-            except Exception as ex:
-                ck.fail("raises", dict(slim(c), failing_request=i),
-                        {"site": "get_%s_tree/k=n" % r["tree"], "exception": type(ex).__name__}, detail=repr(ex))
+            # the handed-back tree must answer like brute force on the REQUESTED kind for every
+            # admissible k (1, 2, n) and for a radius query
+            deep_check(ck, c, i, r, t, gd)
         if want not in matches:
             creator = c["requests"][cr[i]]
             stale = [r["kind"], creator["system"], creator["mcode"]]
@@ -755,6 +749,60 @@ def run_history_case(ck, c, gd, model_trace=None, stats=None):
             if mt not in matches:
                 ck.corr_failures.append({"case": slim(c), "request": i, "model": mt, "impl_behaves_as": matches})
     return observed
+
+
+def deep_check(ck, c, i, r, t, gd):
+    nk = gd.n[r["kind"]]
+    pos = (c["probe"][0], c["probe"][1])
+    rad = r["system"] == "spherical" and (i % 2 == 1)
+    q = user_query(r["system"], r["mcode"], pos, rad)
+    base = {"tree": r["tree"], "kind": r["kind"], "system": r["system"], "mcode": r["mcode"], "metric": r["metric"],
+            "in_radians": rad, "queries": [q], "positions": [list(pos)], "single_flat": True, "acquire": "history"}
+    hist = [[x["tree"], x["kind"], x["system"], x["mcode"], x["reconstruct"]] for x in c["requests"][:i + 1]]
+    for k in sorted({1, min(2, nk), nk}):
+        qc = dict(base, type="knn", k=k, return_distance=True)
+        info = dict(info_query(qc), site="get_%s_tree/history/query" % r["tree"], k_class="k=n" if k == nk else "k<n",
+                    history_length=i + 1)
+        try:
+            res = t.query(list(q), k=k, in_radians=rad, return_distance=True)
+        except Exception as ex:
+            ck.fail("raises", dict(slim(c), failing_request=i, k=k), dict(info, exception=type(ex).__name__),
+                    detail="after requests %s: query(k=%d of n=%d) raised %r" % (hist, k, nk, ex))
+            continue
+        bad = check_knn(gd, qc, res)
+        if bad:
+            ck.fail(bad[0], dict(slim(c), failing_request=i, k=k), info, detail="after requests %s: %s" % (hist, bad[1]))
+    # radius query: between two consecutive true distances of the requested kind
+    D = sorted(oracle_dists(gd, r["kind"], r["system"], r["mcode"], q, rad))
+    j = len(D) // 2
+    hi = D[j + 1] if j + 1 < len(D) else D[j] + mp.mpf("0.05")
+    if hi - D[j] > mp.mpf("1e-5"):
+        rt = (D[j] + hi) / 2
+        rr = float(mp.degrees(rt)) if (r["system"] == "spherical" and r["tree"] == "ball") else float(rt)
+        qc = dict(base, type="radius", r=rr, return_distance=True, count_only=False)
+        info = dict(info_query(qc), site="get_%s_tree/history/query_radius" % r["tree"], history_length=i + 1)
+        try:
+            res = t.query_radius(list(q), r=rr, in_radians=rad, return_distance=True)
+            bad = check_radius(gd, qc, res)
+            if bad:
+                ck.fail(bad[0], dict(slim(c), failing_request=i), info, detail="after requests %s: %s" % (hist, bad[1]))
+        except Exception as ex:
+            ck.fail("raises", dict(slim(c), failing_request=i), dict(info, exception=type(ex).__name__),
+                    detail="after requests %s: query_radius raised %r" % (hist, ex))
+
+
+def return_trips(gs, probe):
+    """for every (tree, system, metric) of the property: kind histories X -> Y -> X and X -> Y -> Z -> X
+    (the wrapper object is reused and switched back to a sub-tree it already holds)"""
+    import itertools
+    out = []
+    for (tree, system, mcode) in COMBOS:
+        seqs = [[x, y, x] for x in KINDS for y in KINDS if x != y] + [list(p) + [p[0]] for p in itertools.permutations(KINDS)]
+        for seq in seqs:
+            out.append({"type": "history", "grid": gs, "probe": probe, "requests": [
+                {"tree": tree, "kind": kd, "system": system, "mcode": mcode, "metric": METRIC_NAMES[mcode][0], "reconstruct": False}
+                for kd in seq]})
+    return out
 
 
 def history_line(c):
@@ -776,7 +824,7 @@ def main(ck):
         "batched queries in degrees or radians at generic positions, on elements, at the poles, within 0..3 deg of +-180 on both "
         "sides, longitudes beyond +-180; k in {1, 2, n, random}; radii 0, between consecutive true distances, up to beyond the "
         "diameter (margin 1e-6).  Histories: 1..3 requests over tree x kind x system x metric x reconstruct and (thorough: all, "
-        "quick: a sample of) ordered pairs of requests on one tree type; each tree handed back is identified behaviourally.  "
+        "quick: a sample of) ordered pairs of requests on one tree type; each tree handed back is identified behaviourally and then queried with k = 1, 2, n of the requested kind and a radius, against brute force on the requested kind.  "
         "non-trivial = tree with >= 2 elements; distinct = distinct (grid, request, queries)")
     mr = ModelRunner(ck)
     per_grid = 10 if quick else 21
@@ -850,8 +898,10 @@ def main(ck):
         if gi == 5 or (not quick and gi % 15 == 0):
             allp = all_histories_len2(gs, probe)
             hs += allp if not quick else rng.sample(allp, 250)
+        if gi in (4, 8) or (not quick and gi % 12 == 0):
+            hs += return_trips(gs, probe)
         for _ in range(8 if quick else 20):
-            hs.append(gen_history(rng, gs, 3))
+            hs.append(gen_history(rng, gs, 4))
         traces = ck.run_model("trace", [history_line(h) for h in hs]) if ok else [None] * len(hs)
         for h, tr in zip(hs, traces):
             ck.note_case((gs["name"], gi, "history", [(r["tree"], r["kind"], r["system"], r["mcode"], r["reconstruct"]) for r in h["requests"]]), True)
